@@ -722,6 +722,42 @@ def _step(run, P):
                 if isinstance(arg, ast.BinOp) and dotted(arg.right) == kname:
                     prefix = string_value(arg.left)
                     ok = prefix is not None and prefix.startswith("self.")
+    # the method name made by a helper of the generator, in the table and at the def alike
+    G_ = fc.cls
+    helper_calls = [x for x in ast.walk(comps[0]) if isinstance(x, ast.Call)
+                    and (dotted(x.func) or "").startswith("self.") and dotted(x.func).count(".") == 1
+                    and dotted(x.func)[5:] in G_.methods and len(x.args) == 1] if (not ok and comps) else []
+    if helper_calls:
+        hname = dotted(helper_calls[0].func)[5:]
+        fd_ = P.func(f"{PYGEN}.emit_def_begin")
+        at_def = any(isinstance(n, ast.Call) and dotted(n.func) == "PythonFunctionEmitter" and n.args
+                     and isinstance(n.args[0], ast.Call) and dotted(n.args[0].func) == f"self.{hname}"
+                     for n in ast.walk(fd_.node))
+        h = G_.methods[hname]
+        rets_ = [r.value for r in ast.walk(h.node) if isinstance(r, ast.Return) and r.value is not None]
+        unique_maps = {t_.attr for m_ in G_.methods.values() for a_ in ast.walk(m_.node)
+                       if isinstance(a_, ast.Assign) and isinstance(a_.value, ast.Call)
+                       and (dotted(a_.value.func) or "").endswith("KeyToUniqueNameMap")
+                       for t_ in a_.targets if isinstance(t_, ast.Attribute) and dotted(t_.value) == "self"}
+        injective = bool(rets_) and all(
+            isinstance(r, ast.Call) and isinstance(r.func, ast.Attribute)
+            and r.func.attr == "get_or_make_name_for_key" and isinstance(r.func.value, ast.Attribute)
+            and r.func.value.attr in unique_maps and len(r.args) == 1
+            and dotted(r.args[0]) == h.arg(0) for r in rets_)
+        lossy = any(isinstance(c_, ast.Call) and (dotted(c_.func) or "").endswith("make_identifier_from_name")
+                    for r in rets_ for c_ in ast.walk(r)) and not injective
+        if not (injective or lossy) or not at_def:
+            raise AnalysisError(f"_emit_constructor: phase method names come from {hname}(); how it names "
+                                "them is not read")
+        run.ob("C01.step", h, h.node, injective,
+               construct=f"{hname}: distinct phase names get distinct method names (a map of unique names), "
+                         f"used for the table and for the def",
+               why="a sanitised name is not unique: 'stage-1' and 'stage_1' get one method, the second "
+                   "def replaces the first and the class runs the wrong phase body")
+        run.ob("C01.step", fd_, fd_.node, at_def,
+               construct=f"emit_def_begin names the method by {hname}() as the table does",
+               why="the table must refer to the functions that are emitted")
+        return
     if not ok and comps and any(isinstance(x, ast.Call) and (dotted(x.func) or "").startswith("self._name_manager.")
                                 for x in ast.walk(comps[0])):
         # the method names come from the name manager (phase names that are no identifiers):
